@@ -167,37 +167,16 @@ UNFINISHED.append(Contract(
           'contract states as they are: see REFUTED_ON_THE_UNCHANGED_TREE',
 ))
 
-# ---- NOT LOADED: where _resolve_qualifiers deviates from DSP0004 / the property text on the unchanged tree.  The strict
-# clauses are variants of rows of table() above; since the propagate=True contract is not loaded they have NOT been put to
-# the engine - each is shown by a native reproducer instead (cd /repo && /venv/bin/python - <<EOF ... EOF).
-# (1) "elements the class does not redeclare are marked propagated and newly introduced ones are not": a Restricted qualifier
-#     that the subclass declares again is the subclass's own declaration, yet the code marks it propagated=True
-#     (row declared-and-restricted-is-accepted-unless-DisableOverride; known finding
-#     known:restricted-qualifier-redeclared-marked-propagated).  Strict clause: implies(I and D0 and not TS, NQ.propagated is False)
-#       conn.compile_mof_string(Qualifier QRE : string = null, Scope(any), Flavor(EnableOverride, Restricted); Key; Override;
-#                               class A { [Key] string K; [QRE("r0")] uint16 E; };
-#                               class B : A { [QRE("r1"), Override("E")] uint16 E; };)
-#       GetClass('B', LocalOnly=False, IncludeQualifiers=True).properties['E'].qualifiers['QRE']  ->  value 'r1', propagated True
-# (2) every qualifier of a resolved element has its flavors set (what _init_qualifier establishes, C12.py): in the rows
-#     declared-and-not-overridable (same value) and declared-and-restricted the declared qualifier is neither initialised
-#     by loop 2 (it IS inherited) nor in loop 3 - tosubclass / overridable stay None when the caller did not set them, and
-#     one level further down `if inh_qual.tosubclass:` treats None as Restricted.  Root cause of the known findings
-#     known:repeated-disableoverride-qualifier-not-propagated-further / -refused-further-down / -change-accepted-further-down.
-#     Strict clause: implies(g_q in new_quals, NQ.tosubclass is not None and NQ.overridable is not None)
-#       Qualifier QTD : string = null, Scope(any), Flavor(DisableOverride, ToSubclass); class A { [Key] string K; [QTD("v0")] uint16 E; };
-#       conn.CreateClass(CIMClass('B', superclass='A', properties=[CIMProperty('E', None, type='uint16',
-#                        qualifiers=[CIMQualifier('QTD', 'v0'), CIMQualifier('Override', 'E')])]))
-#       GetClass('B', LocalOnly=False, IncludeQualifiers=True).properties['E'].qualifiers['QTD']
-#                                                           ->  propagated True, tosubclass None, overridable None
-REFUTED_ON_THE_UNCHANGED_TREE.append(Contract(
-    K + '_resolve_qualifiers', label='propagate=True, strict',
-    params=UNFINISHED[0].params, ghosts=UNFINISHED[0].ghosts, requires=UNFINISHED[0].requires, callees=UNFINISHED[0].callees,
-    loops=UNFINISHED[0].loops,
-    ensures=[('a-redeclared-restricted-qualifier-is-local', f'implies({I_} and {D0} and not {TS}, {NQ}.propagated is False)'),
-             ('every-resolved-qualifier-has-its-flavors',
-              f'implies(g_q in new_quals, {NQ}.tosubclass is not None and {NQ}.overridable is not None)')],
-    raises=UNFINISHED[0].raises,
-    notes='not run by the engine (see UNFINISHED); both clauses are violated natively, reproducers above'))
+# ---- Two deviations of _resolve_qualifiers from DSP0004 / the property text were found while this table was written, shown
+# natively (CreateClass / MOF + GetClass) and have been REPAIRED in /repo since; the loaded row contracts below state the strict
+# table and hold on the repaired tree, so nothing is left for REFUTED_ON_THE_UNCHANGED_TREE:
+# (1) fix 51b9d0d: a Restricted qualifier that the subclass declares again was marked propagated=True (known finding
+#     restricted-qualifier-redeclared-marked-propagated); now propagated=False.
+# (2) fix b36714f: in the rows "ToSubclass, not overridable, declared with the same value" and "restricted, declared" the declared
+#     qualifier never went through _init_qualifier: tosubclass / overridable stayed None when the caller had not set them, and one
+#     level further down `if inh_qual.tosubclass:` treated None as Restricted (root cause of the three known findings
+#     repeated-disableoverride-qualifier-not-propagated-further / -refused-further-down / -change-accepted-further-down).
+# The UNFINISHED contract above still has the pre-fix text of the restricted row (propagated is True); it is not loaded.
 
 # ---- the same table, ROW BY ROW (each contract fixes, in `requires`, whether g_q is declared / inherited; small enough to
 # discharge).  _init_qualifier is cut at the contract proved in contracts/C12.py, written with the public attribute names (the
@@ -241,7 +220,7 @@ def declared_rows(done):
             ('declared-and-not-overridable-has-the-inherited-value-and-type',
              f'implies({done} and {G_TS} and not {G_OV}, g_nq.propagated is True and {G_SAME} and {FLAVORS_SET})'),
             ('declared-and-restricted-is-accepted-unless-DisableOverride',
-             f'implies({done} and not {G_TS}, g_nq.propagated is True and g_inh.overridable is not False and {FLAVORS_SET})')]
+             f'implies({done} and not {G_TS}, g_nq.propagated is False and g_inh.overridable is not False and {FLAVORS_SET})')]
 
 
 ROW_CALLEES = {'_init_qualifier': init_c, 'items': items_stub, 'copy': copy_stub}
@@ -293,7 +272,7 @@ CONTRACTS.append(Contract(
 # g_q not inherited and not declared: nothing appears
 NOT_INHERITED = ['g_q not in inherited_quals', 'g_p == -1']
 CONTRACTS.append(Contract(
-    K + '_resolve_qualifiers', label='propagate=True, g_q neither declared nor inherited', prefer='cvc5',
+    K + '_resolve_qualifiers', label='propagate=True, g_q neither declared nor inherited',
     params=ROW_PARAMS, ghosts={'g_items': ITEMS, 'g_q': Str, 'g_p': Int},
     requires=ENUM_ROW + NOT_INHERITED + [NEW_SIDE, ABSENT],
     callees=ROW_CALLEES,
@@ -354,3 +333,23 @@ for _part, _cl in COPIED_PARTS:
         ensures=[INH_FRAME, (_nm, _cl)],
         raises={'CIMError': Raises(post=[INVALID]), 'KeyError': Raises()},
     ))
+# wall-time budget again: with all 15 contracts of the property running at once the check takes 157 s; the value/type half of
+# the copy row (discharged: 149 of 149 obligations of that run) is not loaded - its teeth are those of copy_stub's `same-content`
+_slow = [c for c in CONTRACTS if c.label and c.label.endswith('not declared: same value and type')]
+DISCHARGED_BUT_TOO_SLOW.extend(_slow)
+CONTRACTS = [c for c in CONTRACTS if c not in _slow]
+
+# ---- what is loaded when.  Measured one by one (wall, 8 checks at once): propagate=False 53 s, neither 57 s, declared-not-inherited
+# 107 s, Restricted-not-declared 119 s, each declared-and-inherited row 140 s, copy row (marked propagated) 157 s: the cost is
+# (paths through loop 3) x (invariants), every quantified obligation decided by z3 AND cvc5.  The quick tier must stay within
+# 90 s of added wall time, so the declared-and-inherited rows and the copy row are loaded only in the thorough tier or with
+# C12_RES_FULL=1 (e.g. `C12_RES_FULL=1 tools/try_edit.sh C12 ...` for mutations of loop 3); all of them discharge
+# (135 of 135 obligations of the property, exit 0, 158 s, on the tree with fixes b36714f and 51b9d0d).
+import os as _os
+_HEAVY = ('propagate=True, g_q declared and inherited ', 'propagate=True, g_q inherited with ToSubclass, not declared: ')
+if _os.environ.get('C12_RES_FULL') or _os.environ.get('PYVC_TIER') == 'thorough':
+    CONTRACTS.extend(_slow)
+else:
+    _heavy = [c for c in CONTRACTS if c.label and c.label.startswith(_HEAVY)]
+    DISCHARGED_BUT_TOO_SLOW.extend(_heavy)
+    CONTRACTS = [c for c in CONTRACTS if c not in _heavy]
